@@ -19,7 +19,7 @@ func init() {
 		Doc:  "Result typestate, no in-module error dropped, target dominated by nil branches, error identity taint, last-resort guard",
 		Run:  runErrflow,
 		Floor: map[string]int{
-			"ERRFLOW-E1": 3, "ERRFLOW-E2": 8, "ERRFLOW-E3": 3, "ERRFLOW-E4": 5, "ERRFLOW-E5": 3,
+			"ERRFLOW-E1": 3, "ERRFLOW-E2": 8, "ERRFLOW-E3": 3, "ERRFLOW-E4": 5, "ERRFLOW-E5": 3, "ERRFLOW-E6": 3,
 		},
 	})
 }
@@ -340,6 +340,54 @@ func runErrflow(c *Ctx) {
 			}
 			c.R.Add("ERRFLOW-E3", "resolver|converter-after-nil-branch", "resolver", p.InstrPos(ci), ok && okMap,
 				"a converter executes only with the argument map of its own resolver call, on that call's nil-error branch", fmt.Sprintf("own-map=%v nil-branch=%v", okMap, ok))
+		}
+	}
+
+	// ---------------- E6: Call returns nothing but an error Result (on a non-nil error branch) or the executor's Result
+	{
+		n6 := 0
+		for _, r := range core.Returns(call) {
+			n6++
+			v := r.Results[0]
+			okk, why := false, "returns "+core.Path(v)
+			lits := core.Lits(core.Guards(r.Block()))
+			for _, src := range core.Sources(v) {
+				cl, isC := src.(*ssa.Call)
+				if !isC {
+					continue
+				}
+				cal := cl.Common().StaticCallee()
+				switch {
+				case cal == exec:
+					okk, why = true, "the executor's Result"
+				case cal != nil && p.InTarget(cal) && returnsResult(cal) && len(cl.Common().Args) == 1 && isErrorType(cl.Common().Args[0].Type()):
+					if nilCheckLit(lits, cl.Common().Args[0], false) {
+						okk, why = true, "error Result on a non-nil error branch"
+					} else {
+						why = "error Result not guarded by err != nil"
+					}
+				}
+			}
+			// an inlined error literal Result{buildErr: err}
+			if !okk {
+				if ld, isLd := v.(*ssa.UnOp); isLd {
+					if al, isAl := ld.X.(*ssa.Alloc); isAl && !wholeStored(al) {
+						for _, ref := range *al.Referrers() {
+							if fa, isFA := ref.(*ssa.FieldAddr); isFA {
+								if fr, _ := core.AsFieldAddr(fa); fr.Field == "buildErr" {
+									for _, r2 := range *fa.Referrers() {
+										if st, isSt := r2.(*ssa.Store); isSt && nilCheckLit(lits, st.Val, false) {
+											okk, why = true, "error Result literal on a non-nil error branch"
+										}
+									}
+								}
+							}
+						}
+					}
+				}
+			}
+			c.R.Add("ERRFLOW-E6", fmt.Sprintf("Call|return#%d", n6), "Call", p.InstrPos(r), okk,
+				"Call returns either an error Result on a branch where that error is non-nil, or exactly what the executor returned after resolution succeeded (no shortcut past resolution)", why)
 		}
 	}
 
